@@ -133,6 +133,7 @@ def _child(mod, prop, scenario, tape_values, wfd):
     S.horizon = knobs.get("horizon", 600.0)
     S.step_cap = knobs.get("step_cap", 300000)
     S.stalls = list(knobs.get("stalls", []))
+    S.slow_starts = list(knobs.get("slow_starts", []))
     strategy = make_strategy(knobs.get("strategy", {}), random.Random(seed ^ 0x51A7))
     S.strategy = strategy
     h = Harness(scenario)
